@@ -10,7 +10,8 @@ package main
 //             element types, dropped commas and tokens)
 //   spec      the executable statement `SpecC05.specHolds` evaluated on the implementation's tokens; a failing
 //             well-formed input is shrunk and reported as a violation
-//   e2e       (c05_e2e.go) rules files: Engine.Load  vs  irconv -> irprint -> evaluate -> Engine.LoadFromIR
+//   e2e       (c05_e2e.go, c05_hist.go) load histories of 1..3 rules files per engine: Engine.Load of every file  vs
+//             precompile -> irprint -> evaluate -> Engine.LoadFromIR of every file (outcomes, groups, report streams)
 
 import (
 	"fmt"
@@ -153,7 +154,10 @@ func runC05(c *Ctx) error {
 		"+ %d outside the schema (numbers without a name, non-string Value or Args on one-line ops), every one printed by the real irprint.File, tokenised with go/scanner "+
 		"and compared with the Lean printer model; every printed text is evaluated by SpecC05.evalLit (Lean) and by a reflection evaluator over go/parser (Go) and both "+
 		"must agree, also on %d mutated token streams; the statement SpecC05.specHolds is evaluated on the implementation's tokens for every schema-valid value; "+
-		"rules files (21 fixtures + generated) go through Load vs irconv->irprint->evaluate->LoadFromIR. "+
+		"rules files (fixtures + generated) go through Load vs precompile->irprint->evaluate->LoadFromIR, one file per engine and as load histories of 1..3 files in one engine "+
+		"(all-source engine vs all-IR engine over the same files in the same order: package clauses other than gorules, per-file custom Filter()/Do() function names and bodies, "+
+		"files drawing patterns from a small common pool so that rules of different files accept the same node, colliding group names, equal file names, bundle imports, "+
+		"2..3 fixture files together): equal outcome of every load call, equal LoadedGroups(), equal report streams in the same order. "+
 		"A case is non-trivial when the file has at least one rule group or bundle import; distinct by S-expression.", nValid, nBundle, nZero, nMal, nMut)
 
 	var cases []*c05Case
